@@ -50,19 +50,33 @@ def run_one(path, keep=False):
         evd = os.path.join(tmp, "evidence")
         env.update({"VERIF_REPO": scratch, "VERIF_EVIDENCE_DIR": evd, "VERIF_OUT_DIR": os.path.join(tmp, "out"),
                     "VERIF_FACTS_LABEL": "mut", "VERIF_FACTS_DIR": os.path.join(tmp, "facts"), "VERIF_NO_SELFTEST": "1"})
-        c = subprocess.run([os.path.join(HERE, "check"), meta["property"], "--tier", "quick"], cwd=HERE, env=env,
-                           stdout=subprocess.PIPE, stderr=subprocess.STDOUT, text=True)
-        out = c.stdout
+        props = meta["property"]
+        if props == "ALL":
+            props = ",".join("C%02d" % i for i in range(1, 21))
+        out = ""
+        rc = 0
+        for pid in props.split(","):
+            c = subprocess.run([os.path.join(HERE, "check"), pid.strip(), "--tier", "quick"], cwd=HERE, env=env,
+                               stdout=subprocess.PIPE, stderr=subprocess.STDOUT, text=True)
+            out += c.stdout
+            rc = rc or c.returncode
         keys = re.findall(r"^\s+key: (.*)$", out, re.M)
         if "fact export failed" in out:
             res["status"] = "skipped: mutant does not compile"
             res["detail"] = out[-400:]
             return res
+        res["keys"] = keys
+        if meta.get("expect") == "none":
+            # behaviour-preserving refactoring: every check must stay silent
+            res["status"] = "silent" if not keys and rc == 0 else "FALSE-ALARM"
+            if keys or rc:
+                res["detail"] = "\n".join(keys) or out[-600:]
+            res["exit"] = rc
+            return res
         exp = re.compile(meta.get("expect", "."))
         rule = meta.get("rule", "")
         hit = [k for k in keys if k.startswith(rule + "|") and exp.search(k)]
         other = [k for k in keys if k not in hit]
-        res["keys"] = keys
         if hit:
             res["status"] = "caught"
         elif keys:
@@ -70,7 +84,7 @@ def run_one(path, keep=False):
         else:
             res["status"] = "MISSED"
             res["detail"] = out[-600:]
-        res["exit"] = c.returncode
+        res["exit"] = rc
     finally:
         shutil.rmtree(tmp, ignore_errors=True)
         res["wall_s"] = round(time.time() - t0, 1)
@@ -94,15 +108,17 @@ def main():
         for r in ex.map(run_one, paths):
             results.append(r)
             print("%-44s %-6s %-10s %-22s %5.1fs" % (r["mutant"], r["property"], r["rule"], r["status"], r["wall_s"]))
-            if r["status"] == "MISSED":
+            if r["status"] in ("MISSED", "FALSE-ALARM"):
                 print("     " + (r.get("detail") or "").replace("\n", "\n     ")[-500:])
             sys.stdout.flush()
     os.makedirs(os.path.join(HERE, "out"), exist_ok=True)
     if not a.only and not a.prop:
         json.dump(results, open(os.path.join(HERE, "out", "mutants.json"), "w"), indent=1)
     missed = [r for r in results if r["status"] == "MISSED"]
+    fa = [r for r in results if r["status"] == "FALSE-ALARM"]
+    print("benign refactorings: %d silent, %d false alarms" % (sum(r["status"] == "silent" for r in results), len(fa)))
     print("%d mutants: %d caught, %d caught by another rule, %d missed, %d skipped" % (
-        len(results), sum(r["status"] == "caught" for r in results),
+        sum(r.get("expect") != "none" for r in results), sum(r["status"] == "caught" for r in results),
         sum(r["status"] == "caught-by-other-rule" for r in results), len(missed),
         sum(r["status"].startswith("skipped") for r in results)))
     return 0
